@@ -343,24 +343,33 @@ def merged_graph(nodes, edges, inits):
     return n2, e2, sorted({rep[i] for i in inits})
 
 
-def graph_paths(ctx, flavour, paths, inits, depth, label):
-    """Model-check, dump the state graph, register it under a key, return (key, [(init node, [labels])])."""
-    c = cfg(flavour, paths, inits, depth)
-    nodes, edges, ini, res = tlc.graph(ctx, "WorkingTree", cfg_text=c, workers=8, label=label)
-    if "Error:" in res["output"]:
-        ctx.machinery("TLC reported an error on WorkingTree:\n" + res["output"][-2000:])
-    nodes, edges, ini = merged_graph(nodes, edges, ini)
-    if not edges:
-        ctx.machinery("empty state graph")
-    out = {nid: {} for nid in nodes}
-    for a, act, b in edges:
-        out[a].setdefault(act, []).append(b)
+_EDGES = {}
+
+
+def graph_paths(ctx, flavour, paths, inits, depth, label, max_len=None):
+    """Model-check, dump the state graph, register it under a key, return (key, [(init node, [labels])]).
+    max_len: longest cover path in calls (default = depth; longer paths run through states that are reachable in fewer
+    calls another way - the call counter is forgotten when the graph is merged)."""
     gkey = "%s/%s/%d" % (flavour, len(paths), depth)
-    GRAPHS[gkey] = (nodes, out)
+    if gkey not in GRAPHS:
+        c = cfg(flavour, paths, inits, depth)
+        nodes, edges, ini, res = tlc.graph(ctx, "WorkingTree", cfg_text=c, workers=8, label=label)
+        if "Error:" in res["output"]:
+            ctx.machinery("TLC reported an error on WorkingTree:\n" + res["output"][-2000:])
+        nodes, edges, ini = merged_graph(nodes, edges, ini)
+        if not edges:
+            ctx.machinery("empty state graph")
+        out = {nid: {} for nid in nodes}
+        for a, act, b in edges:
+            out[a].setdefault(act, []).append(b)
+        GRAPHS[gkey] = (nodes, out)
+        _EDGES[gkey] = (edges, ini)
+    nodes, out = GRAPHS[gkey]
+    edges, ini = _EDGES[gkey]
     cover = [(p[0][1], [act for act, _ in p[1:]]) for p in
-             tlc.transition_cover(nodes, edges, ini, rng=ctx.rng, max_len=depth + 1)]
+             tlc.transition_cover(nodes, list(edges), ini, rng=ctx.rng, max_len=(max_len or depth) + 1)]
     ctx.cov.setdefault("graphs", []).append({"flavour": flavour, "paths": paths, "depth": depth, "states": len(nodes),
-                                             "edges": len(edges), "cover_paths": len(cover)})
+                                             "edges": len(edges), "cover_paths": len(cover), "max_calls": max_len or depth})
     return gkey, cover
 
 
@@ -379,10 +388,11 @@ def run(ctx):
                       expect_violation=w, label="witness %s %s" % (w, fl), workers=4)
     jobs = []
 
-    def plan(fl, fmts, paths, depth, sample=None, only_len=None):
-        gkey, cover = graph_paths(ctx, fl, paths, inits, depth, "MC + graph %s %d paths depth %d" % (fl, len(paths), depth))
-        if only_len:
-            cover = [p for p in cover if len(p[1]) >= only_len]
+    def plan(fl, fmts, paths, depth, sample=None, max_len=None):
+        gkey, cover = graph_paths(ctx, fl, paths, inits, depth, "MC + graph %s %d paths depth %d" % (fl, len(paths), depth),
+                                  max_len)
+        if max_len:
+            cover = [p for p in cover if len(p[1]) > depth]
         for fmt in fmts:
             part = cover if sample is None or sample >= len(cover) else ctx.rng.sample(cover, sample)
             jobs.extend((fmt, gkey, paths, start, labels) for start, labels in part)
@@ -390,20 +400,24 @@ def run(ctx):
     if ctx.quick:
         plan("bzr", ["2a"], SMALL, 4, 500)
         plan("git", ["git"], SMALL, 4, 300)
+        plan("bzr", ["2a"], WIDE, 3, 150)
+        plan("git", ["git"], WIDE, 3, 100)
     else:
         plan("bzr", ["2a"], SMALL, 4)                       # complete transition cover
         plan("bzr", ["knit"], SMALL, 4, 3000)               # WorkingTree3
         plan("git", ["git"], SMALL, 4)
         plan("bzr", ["2a"], WIDE, 3)
         plan("git", ["git"], WIDE, 3)
-        plan("bzr", ["2a"], SMALL, 5, 3000, only_len=5)     # sequences of 5 calls: seeded sample
-        plan("git", ["git"], SMALL, 5, 3000, only_len=5)
+        plan("bzr", ["2a"], SMALL, 4, 3000, max_len=7)      # longer sequences (5-7 calls) through the same graph: sample
+        plan("git", ["git"], SMALL, 4, 3000, max_len=7)
+        for fl in ("bzr", "git"):                           # E1 at depth 5: model checking only
+            tlc.check(ctx, "WorkingTree", cfg_text=cfg(fl, SMALL, inits, 5), label="MC %s depth 5" % fl, workers=8)
     core.fork_map(ctx, replay_paths, jobs)
     ctx.cov["exhaustive"] = not ctx.quick
     ctx.rule("paths = transition cover of TLC's state graph of WorkingTree.tla: every edge = one call in one abstract state "
              "reachable within 4 calls from the empty or the committed tree over {a, b, d/, d/a} (quick: seeded sample of "
-             "500 bzr + 300 git cover paths; thorough: the whole cover on 2a and git, 3000 on WorkingTree3, the whole cover "
-             "of depth 3 over {a, d/, d/a, e/, e/a}, and 3000 sampled 5-call paths per flavour); distinct non-trivial = "
+             "500 bzr + 300 git cover paths, plus 150 + 100 of depth 3 over {a, d/, d/a, e/, e/a}; thorough: the whole cover on 2a and git, 3000 on WorkingTree3, the whole cover "
+             "of depth 3 over {a, d/, d/a, e/, e/a}, and 3000 sampled 5-7-call paths per flavour through the same graph); distinct non-trivial = "
              "(format, initial tree, call sequence with outcomes) with at least two calls")
 
 
